@@ -9,7 +9,14 @@ verifkit.DB, paymentsdb.SQLStore on SQLite):
   (c) every recorded trace validated by TLC: PaymentStoreTrace (sequential: class, returned payment and
       all payments read back after every call) and PaymentStoreConc (concurrent: some linearization
       consistent with the start/end stamps must be a behaviour of the spec);
-  (d) negative controls (a corrupted class, a corrupted state field, a corrupted concurrent answer).
+  (d) negative controls (a corrupted class, a corrupted state field, a corrupted read-back route field, a
+      corrupted concurrent answer).
+
+Attempts are ROUTES (b16): the model keeps the stored image of every attempt's route, decides the admission
+of every later shard from it (verifyAttempt on the final hop of the stored routes) and demands
+img = registered route (RoundTrip, AdmitByRegistered; MC over a universe of 61 route shapes); the executor
+builds the real route.Route of every shape and records the route of every attempt as read back from BOTH
+stores after every call (ConformRoute, ConformRetRoute, RecordedRoundTrip in PaymentStoreTrace).
 
 A rejected trace is attributed by the trace spec itself: the same module with the deviation constant
 TRUE announces every deviating step (`<<"QUIRK", key, line>>`); what it still rejects is another violation.
@@ -29,7 +36,7 @@ LEVEL = "model_checking"
 PKG = "./payments/db/"
 HARNESS = ["payments/db/c16_test.go"]
 MC_WORKERS = int(os.environ.get("C16_MC_WORKERS", "8"))
-INPUT_FIELDS = ("a", "h", "id", "kind", "addr", "tot", "amt", "fo", "fa", "rs")
+INPUT_FIELDS = ("a", "h", "id", "shape", "rt", "fo", "fa", "rs")
 # deviation constant of the specification that models each backend's named deviation
 QUIRK_OF = {"kv": "KVDupQuirk", "sql": "F2Quirk"}
 WHAT = {
@@ -72,8 +79,24 @@ def schedule_of(recs):
     return [{k: r[k] for k in INPUT_FIELDS} for r in recs if not is_reset(r)]
 
 
+def shape_of(rt):
+    """Label of a route's shape (statistics and reports only; same classes as ShapeName in PaymentStore.tla)."""
+    hops = rt.get("hops") or []
+    if not hops:
+        return ""
+    f = hops[-1]
+    dec = "".join(t for t, on in (("+cr", any(h["cr"] for h in hops)), ("+md", f["md"]), ("+firsthop", rt["fha"] or rt["fcr"])) if on)
+    if f["enc"]:
+        base = "blind+mpp" if f["ma"] else ("blind-intro-is-final" if f["bp"] else "blind")
+        if not f["tot"]:
+            base += "-nototal"
+    else:
+        base = "amp" if f["amp"] else ("mpp" if f["ma"] else "single")
+    return "%s/%dhops%s" % (base, len(hops), dec)
+
+
 def consts(be=None, quirk=False, **kw):
-    c = {"F2Quirk": "FALSE", "KVDupQuirk": "FALSE"}
+    c = {"F2Quirk": "FALSE", "KVDupQuirk": "FALSE", "Lossy": "{}"}
     if quirk and be:
         c[QUIRK_OF[be]] = "TRUE"
     c.update(kw)
@@ -93,7 +116,9 @@ def report(ck, be, key, what, recs, line, text=None, extra=None):
     files = {"trace.ndjson": one, "b_1.ndjson": sched, "backend.txt": meta}
     files.update(extra or {})
     at = recs[min(max((line or 1) - 1, 0), len(recs) - 1)]
-    brief = {k: at.get(k) for k in ("a", "h", "id", "kind", "amt", "cls", "err")}
+    brief = {k: at.get(k) for k in ("a", "h", "id", "shape", "cls", "err")}
+    if at.get("rt", {}).get("hops"):
+        brief["route"] = shape_of(at["rt"])
     ck.violation(key, "%s [backend=%s, trace line %s of the batch, call %s]" % (what, be, line, json.dumps(brief)),
                  files=files, text=text)
 
@@ -143,6 +168,14 @@ def run_conc(ck, be, path, constants, name):
     return (not missing), (missing[0] if missing else None), r
 
 
+# the read-back field each backend's control corrupts (two different ones, so that both kinds are shown to bind)
+ROUTE_FIELD = {"kv": "tot", "sql": "mt"}
+
+
+def bump(d, k):
+    d[k] = d[k] + 1
+
+
 def negative_controls(ck, be, recs, constants):
     """Corrupt one recorded field of an accepted trace; the validator must reject it."""
     done = []
@@ -155,7 +188,11 @@ def negative_controls(ck, be, recs, constants):
                        ("state: registered attempt read back as settled",
                         lambda r: r["s"][r["h"]]["att"].__setitem__(r["id"] - 1, "settled")),
                        ("state: remaining amount +1",
-                        lambda r: r["s"][r["h"]].__setitem__("rem", r["s"][r["h"]]["rem"] + 1))):
+                        lambda r: r["s"][r["h"]].__setitem__("rem", r["s"][r["h"]]["rem"] + 1)),
+                       ("route read back: a field of the registered attempt's final hop altered (%s)" % ROUTE_FIELD[be],
+                        lambda r: bump(r["s"][r["h"]]["rt"][r["id"] - 1]["hops"][-1], ROUTE_FIELD[be])),
+                       ("route returned by RegisterAttempt: first hop's channel id altered",
+                        lambda r: bump(r["ret"]["rt"][r["id"] - 1]["hops"][0], "ch"))):
         a, b = core.slice_trace(recs, i + 1, is_reset)
         bad = copy.deepcopy(recs[a:b])
         mut(bad[i - a])
@@ -213,9 +250,29 @@ def run(ck):
     else:
         for na in ([3, 4] if thorough else [3]):
             ck.model_check(SPEC, "PaymentStoreMC", "PaymentStoreMCFull.cfg",
-                           "PaymentStore strict, complete state space, 2 payments x %d attempt ids, value 3, 12 descriptors" % na,
+                           "PaymentStore strict, complete state space, 2 payments x %d attempt ids, value 3, "
+                           "15 routes (one per admission class)" % na,
                            constants=consts(NA=na), name="mc_full_na%d" % na, timeout=1700, workers=MC_WORKERS)
+        # the whole universe of route shapes (61 routes) meeting itself as "stored in flight" x "offered" in one payment
+        for na in ([3, 4] if thorough else [3]):
+            ck.model_check(SPEC, "PaymentStoreMC", "PaymentStoreMCRoutes.cfg",
+                           "PaymentStore strict, complete state space, 1 payment x %d attempt ids, the universe of 61 route "
+                           "shapes (RoundTrip, AdmitByRegistered)" % na,
+                           constants=consts(NA=na), name="mc_routes_na%d" % na, timeout=900, workers=MC_WORKERS)
     ck.cov["exhaustive"] = True
+    # a store that loses a hop field on the round trip (expected violations: RoundTrip / AdmitByRegistered bite)
+    # (PaymentStoreMCLossy.cfg checks AdmitByRegistered alone: RoundTrip fails one step earlier)
+    for lossy, cfg, expect in (('{"tot"}', "PaymentStoreMCRoutes.cfg", "RoundTrip"),
+                               ('{"tot"}', "PaymentStoreMCLossy.cfg", "AdmitByRegistered"),
+                               ('{"ma", "mt"}', "PaymentStoreMCLossy.cfg", "AdmitByRegistered"),
+                               ('{"enc"}', "PaymentStoreMCLossy.cfg", "AdmitByRegistered")):
+        r = ck.model_check(SPEC, "PaymentStoreMC", cfg,
+                           "PaymentStore with a store losing %s (must violate %s)" % (lossy, expect), must_hold=False,
+                           constants=consts(Lossy=lossy), name="mc_lossy", timeout=600, workers=1)
+        if not r.violation or expect not in r.violation:
+            raise Inconclusive("the specification with Lossy=%s does not violate %s (got %s): the property does not bind"
+                               % (lossy, expect, r.violation))
+        ck.notes.append("Lossy=%s violates %s (TLC, depth %d)" % (lossy, expect, r.depth))
     # what the two named deviations break (expected violations: evidence that the invariants bite)
     for const, expect in (("F2Quirk", "OwnHashOnly"), ("KVDupQuirk", "AttemptStable")):
         # (BFS: the shortest violation is Init, Register, Register resp. Init, Init, Register, Settle)
@@ -252,6 +309,10 @@ def run(ck):
 
     # ---------------------------------------------------------------- (c) validate
     pairs = collections.Counter()
+    shapes = collections.Counter()
+    decor = collections.Counter()
+    routes = set()
+    second = collections.Counter()
     distinct = set()
     accepted = {}
     quirks = {}
@@ -274,6 +335,15 @@ def run(ck):
                 cur, nontrivial = [], False
                 continue
             pairs[(r["a"], r["cls"])] += 1
+            if r["a"] == "Register":
+                sh = shape_of(r["rt"])
+                shapes[(sh.split("/")[0], "admitted" if r["cls"] == "ok" else "refused:" + r["cls"])] += 1
+                for t in sh.split("/")[1].split("+"):
+                    decor[t] += 1
+                routes.add(json.dumps(r["rt"], sort_keys=True))
+                # a shard admitted next to another in-flight shard: the admission was decided from a stored image
+                if r["cls"] == "ok" and r["h"] in r["s"] and r["s"][r["h"]]["nin"] >= 2:
+                    second[sh.split("/")[0]] += 1
             cur.append(tuple(r[k] for k in INPUT_FIELDS))
             nontrivial = nontrivial or (r["cls"] == "ok" and r["a"] not in ("Fetch", "FetchInFlight"))
         accepted[be], quirks[be] = judge_sequential(ck, be, recs, path, "seq")
@@ -281,7 +351,7 @@ def run(ck):
             negative_controls(ck, be, recs, accepted[be])
         if be == "sql":
             ck.cov["samples"].append({"backend": be, "first_calls": [
-                {k: r[k] for k in ("a", "h", "id", "kind", "amt", "cls")} for r in recs[1:7]]})
+                {k: r[k] for k in ("a", "h", "id", "shape", "cls")} for r in recs[1:7]]})
 
     # concurrent runs: the deviation constants follow what the sequential part found in this tree
     for be in ("kv", "sql"):
@@ -329,16 +399,30 @@ def run(ck):
     ck.cov["distinct_nontrivial"] = len(distinct)
     ck.cov["rule"] = ("behaviours generated by TLC -simulate from PaymentStoreGen (both deviation constants on, so that "
                       "histories using an attempt id under the other payment's hash and duplicate ids are generated) plus seeded "
-                      "random histories, each replayed on a fresh KVStore and a fresh SQLStore; distinct = distinct "
+                      "random histories, each replayed on a fresh KVStore and a fresh SQLStore; every Register carries a route "
+                      "from the universe of shapes of PaymentStore.tla (1-3 hops, single/MPP/AMP/blinded with the introduction "
+                      "node at every position incl. the final hop, custom records, metadata, first-hop data) built as a real "
+                      "route.Route, and the route of every attempt is read back after every call; distinct = distinct "
                       "(backend, call sequence with arguments) having >= 1 admitted state-changing call; concurrent runs: "
                       "2-4 goroutines x 6-7 calls after a 3-call prefix")
     ck.cov["op_class_pairs"] = {"%s/%s" % k: n for k, n in sorted(pairs.items())}
+    ck.cov["route_shapes_registered"] = {"%s -> %s" % k: n for k, n in sorted(shapes.items())}
+    ck.cov["route_hops_and_decorations"] = dict(sorted(decor.items()))
+    ck.cov["distinct_routes_registered"] = len(routes)
+    ck.cov["shards_admitted_next_to_inflight_shard"] = dict(second)
+    if not ck.violations and not (second.get("blind-intro-is-final") and second.get("blind") and second.get("mpp")):
+        raise Inconclusive("no second shard admitted for some route family (%s): the route universe is not exercised" % dict(second))
     ck.cov["trusted_base"] = ["TLC 1.8.0", "CommunityModules Json",
-                              "executor projection (field copies of *MPPayment read back through FetchPayment; attempts by id)",
+                              "executor projection (field copies of *MPPayment read back through FetchPayment; attempts by id; "
+                              "routes hop by hop: keys / blobs / record sets are decoded to the small ids of the fixed values they "
+                              "were built from, anything else reads as -1)",
                               "executor error classification (errors.Is on the package sentinels; 5 text patterns for "
                               "refusals that have no sentinel: 'not registered', 'htlcs bucket not found', "
                               "'non bucket element', SQLite FOREIGN KEY / UNIQUE constraint names)",
-                              "abstraction: amounts in units of 1000 msat, attempts described by (kind, MPP addr, total, amount)"]
+                              "abstraction: amounts in units of 1000 msat; a route is (total amount, time lock, first-hop amount / "
+                              "records, source, hops x 12 fields), see PaymentStore.tla"]
     ck.assumptions += ["bbolt and SQLite backends only (Postgres/etcd are not available offline)",
-                       "routes/onion blobs/session keys/timestamps are not part of the abstract state",
+                       "onion blobs/session keys/timestamps/attempt hash are not part of the abstract state; routes are well-formed "
+                       "per the field comments of route.Hop (MPP/AMP/metadata/total only where documented) plus the ill-formed "
+                       "ones verifyAttempt refuses; LegacyPayload hops and zero-hop routes are outside the universe",
                        "concurrent driver: the linearization search sees call start/end stamps, not commit order"]
